@@ -236,7 +236,7 @@ fn main() {
     "cursors of another index (same generation number) are out of scope".into(),
   ];
   let quick = ctx.quick();
-  let n = ctx.n(1000, 20000);
+  let n = ctx.n(1000, 160_000);
   ctx.run_cases("walks", n, |rng: &mut Rng, l: &mut Local, scratch| {
     let n_docs = if quick { rng.urange(8, 40) } else { rng.urange(8, 60) };
     let corpus = paging::gen_corpus(rng, n_docs, 4);
